@@ -605,6 +605,48 @@ def _imports(ctx, rel):
     return m.__dict__["_c18_imports"]
 
 
+_LIB_CANON = {"numpy": "np"}
+_LIB_MODULES = {"numpy", "functools", "operator", "itertools", "math", "collections", "builtins"}
+
+
+def _alias_entries(st, table):
+    """names an import statement binds to a library module / function -> canonical dotted spelling (`np.` for numpy)"""
+    if isinstance(st, ast.Import):
+        for a in st.names:
+            if a.name.split(".")[0] not in _LIB_MODULES:
+                continue
+            canon = _LIB_CANON.get(a.name, a.name)
+            local = a.asname or a.name.split(".")[0]
+            if a.asname is None and "." in a.name:
+                continue
+            if local != canon:
+                table[local] = canon
+            else:
+                table.pop(local, None)
+    elif isinstance(st, ast.ImportFrom) and not st.level and st.module and st.module.split(".")[0] in _LIB_MODULES:
+        mod = _LIB_CANON.get(st.module, st.module)
+        for a in st.names:
+            if a.name != "*":
+                table[a.asname or a.name] = (mod + "." + a.name) if mod != "builtins" else a.name
+
+
+def _lib_aliases(ctx, rel):
+    m = raw_module(ctx, rel)
+    if "_c18_aliases" not in m.__dict__:
+        table = {}
+        for st in m.tree.body:
+            _alias_entries(st, table)
+        m.__dict__["_c18_aliases"] = table
+    return m.__dict__["_c18_aliases"]
+
+
+_DOTTED = None
+
+
+def _parse_dotted(name):
+    return ast.parse(name, mode="eval").body
+
+
 _INPLACE_METHODS = {"sort", "fill", "resize", "partition", "put", "itemset", "setfield", "setflags"}
 
 
@@ -675,10 +717,12 @@ class PathEval(AutoEvaluator):
         self.decisions, self.trace, self.sites = decisions, trace, sites
         self.raised = None
         self._bv = 0
+        self._canon_depth = 0
         self._positions = []       # (position symbol @i<n>, sequence walked by position, its item @v<n>) of the index loops being evaluated
         self._brk = self._cont = False
         self.escaped = []          # values handed to calls whose result is thrown away (an opaque call statement may change them in place)
         self.module_consts = _consts(ctx, rel)
+        self.aliases = dict(_lib_aliases(ctx, rel))      # import aliases of library modules / functions -> canonical dotted spelling
         a = fn.args
         for p in a.posonlyargs + a.args + a.kwonlyargs + ([a.vararg] if a.vararg else []) + ([a.kwarg] if a.kwarg else []):
             self.env.setdefault(p.arg, F.sym(p.arg))
@@ -702,6 +746,9 @@ class PathEval(AutoEvaluator):
             pol = True
         else:
             u = unfn_m(canon)
+            if u is not None and u[0] in ("call:bool", "call:operator.truth") and len(u[1]) == 1 and not isinstance(u[1][0], str):
+                r = self._decide_value(u[1][0], test)             # the truth of bool(x) is the truth of x
+                return r if pol else (not r)
             if u is not None and u[0] == "invert" and len(u[1]) == 1 and is_boolean(u[1][0]):
                 r = not self._decide_value(u[1][0], test)          # ~flag on a boolean is `not flag`
                 return r if pol else (not r)
@@ -759,6 +806,9 @@ class PathEval(AutoEvaluator):
             return
         if isinstance(st, ast.Match):
             self._match(st)
+            return
+        if isinstance(st, (ast.Import, ast.ImportFrom)):
+            _alias_entries(st, self.aliases)
             return
         if isinstance(st, ast.Assign) and len(st.targets) == 1 and isinstance(st.targets[0], ast.Name) and isinstance(st.value, ast.Call) \
                 and dotted(st.value.func) in ("functools.partial", "partial") and st.targets[0].id not in self.pinned:
@@ -1117,6 +1167,14 @@ class PathEval(AutoEvaluator):
             return F.fn("cmp:" + type(node.ops[0]).__name__, need(a), wrap(b))           # x in (a, b): the literal collection as one value
         if isinstance(node, (ast.ListComp, ast.GeneratorExp, ast.SetComp)):
             return self._comp(node)
+        if isinstance(node, ast.Name) and node.id in self.aliases and node.id not in self.env and node.id not in self.buffers:
+            return self._ev(ast.copy_location(_parse_dotted(self.aliases[node.id]), node))
+        if isinstance(node, ast.Attribute):
+            d = dotted(node)
+            if d is not None:
+                root = d.split(".")[0]
+                if root in self.aliases and root not in self.env and root not in self.buffers:
+                    return self._ev(ast.copy_location(_parse_dotted(self.aliases[root] + d[len(root):]), node))
         if isinstance(node, ast.Lambda):
             a = node.args
             if a.vararg or a.kwarg or a.posonlyargs or a.kwonlyargs:
@@ -1289,9 +1347,33 @@ class PathEval(AutoEvaluator):
         except Unsupported as e:
             return Unknown(str(e))
 
+    def _canonical_callee(self, d):
+        """the dotted callee name with a leading import alias (`numpy.` / `from numpy import x` / `import functools as ft`) or a local that
+        is bound to a library function or another name (`search = np.searchsorted`) replaced by what it stands for; None: nothing to replace"""
+        root = d.split(".")[0]
+        if root in self.env and root not in self.pinned and root not in self.buffers:
+            v = self.env[root]
+            s = None if is_unknown(v) or isinstance(v, (tuple, DictValue)) else sym_of(v)
+            if s and s != root and not s.startswith(("@", "'")) and all(part.isidentifier() for part in s.split(".")):
+                return s + d[len(root):]
+            return None
+        if root in self.aliases:
+            return self.aliases[root] + d[len(root):]
+        return None
+
     def _hook2(self, node):
         f = node.func
         d = dotted(f)
+        if d is not None and self._canon_depth < 4:
+            cd = self._canonical_callee(d)
+            if cd is not None and cd != d:
+                self._canon_depth += 1
+                try:
+                    call = ast.Call(func=ast.copy_location(_parse_dotted(cd), f), args=node.args, keywords=node.keywords)
+                    call._c18_orig = getattr(node, "_c18_orig", node)        # the call site in the source this evaluation stands for
+                    return self._ev(ast.fix_missing_locations(ast.copy_location(call, node)))
+                finally:
+                    self._canon_depth -= 1
         meth = f.attr if isinstance(f, ast.Attribute) else None
         # a method call on a value of the function (a local, a parameter, an expression) - not on a module such as np
         on_value = meth is not None and (d is None or d.split(".")[0] in self.env)
@@ -1507,8 +1589,9 @@ class PathEval(AutoEvaluator):
             side = par.get("side", F.sym("'left'"))
             sorter = par.get("sorter", F.sym("None"))
             val = F.fn("searchsorted", wrap(par["a"]), wrap(par["v"]), wrap(side), wrap(sorter))
-            if not any(n is node for n, _ in self.sites):
-                self.sites.append((node, dict(a=par["a"], v=par["v"], side=side, sorter=sorter, value=val)))
+            site = getattr(node, "_c18_orig", node)
+            if not any(n is site for n, _ in self.sites):
+                self.sites.append((site, dict(a=par["a"], v=par["v"], side=side, sorter=sorter, value=val)))
             return val
         # private helpers of the same module / nested functions: evaluate the body with the argument values
         if isinstance(f, ast.Name) and f.id not in self.env:
